@@ -6,6 +6,8 @@ package main
 
 import (
 	"encoding/json"
+	"github.com/verily-src/fhirpath-go/fhirpath"
+	"github.com/verily-src/fhirpath-go/fhirpath/evalopts"
 	"math/rand"
 	"os"
 	"runtime"
@@ -216,6 +218,11 @@ func run(resPath, casesPath, obsPath string) {
 			rec[k] = v
 		}
 		rec["src"], rec["out"] = c.Text, out
+		// C12 element cases: the same type test on the element handed in as an environment variable - for a choice-typed
+		// element the WRAPPER message itself (Observation_ValueX ...), which the operators must look through
+		if env := envTypeTest(c, forests[c.Ti-1], resources[c.Ti-1]); env != nil {
+			rec["envsrc"], rec["envout"] = env["src"], env["out"]
+		}
 		if snap != nil {
 			rec["mut"] = snap.Report()
 		}
@@ -291,4 +298,46 @@ func typeTable(path string) {
 	if err := os.WriteFile(path, b, 0o644); err != nil {
 		lib.Fatal("%v", err)
 	}
+}
+
+// envTypeTest evaluates "%x is|as T" for a C12 element case, with %x the proto message at the case's address (the
+// choice wrapper when the node has one). nil when the record is not such a case.
+func envTypeTest(c caseRec, f *lib.Forest, res proto.Message) map[string]any {
+	raw, ok := c.Raw["cs"]
+	if !ok {
+		return nil
+	}
+	var cs struct {
+		Kind string `json:"kind"`
+		Addr []int  `json:"addr"`
+		Op   string `json:"op"`
+		Ns   string `json:"ns"`
+		Name string `json:"name"`
+	}
+	if err := json.Unmarshal(raw, &cs); err != nil || cs.Kind != "el" || (cs.Op != "is" && cs.Op != "as") {
+		return nil
+	}
+	n := f.Res[0].Root
+	for _, k := range cs.Addr {
+		if k < 1 || k > len(n.Kids) {
+			return nil
+		}
+		n = n.Kids[k-1]
+	}
+	var m proto.Message = n.Ptr
+	if n.Wrap != nil && n.K != "resource" {
+		// (a resource inside a Bundle entry or `contained` sits in a ContainedResource message: not a choice wrapper
+		// in the sense of the property; the resource itself is handed in)
+		m = n.Wrap
+	}
+	if m == nil {
+		return nil
+	}
+	ty := cs.Name
+	if cs.Ns != "" {
+		ty = cs.Ns + "." + cs.Name
+	}
+	src := "%x " + cs.Op + " " + ty
+	out := lib.EvalOutcome(f, src, lib.AsResources(res), nil, []fhirpath.EvaluateOption{evalopts.EnvVariable("x", m)})
+	return map[string]any{"src": src, "out": out}
 }
